@@ -503,8 +503,9 @@ func (db *RockDB) lDelete(ts int64, key []byte, wb engine.WriteBatch) int64 {
 		db.IncrTableKeyCount(table, -1, wb)
 	}
 	db.topLargeCollKeys.Update(key, int(0))
-	if db.cfg.ExpirationPolicy == common.WaitCompact {
-		// for compact ttl , we can just delete the meta
+	if db.cfg.ExpirationPolicy == common.WaitCompact && keyInfo.OldHeader.ValueVersion < ts {
+		// for compact ttl , we can just delete the meta (unless a list re-created by an entry with this
+		// same timestamp would get the same generation number: then the elements go physically)
 		return size
 	}
 	rk := keyInfo.VerKey
